@@ -29,6 +29,32 @@ class PyRaise(Exception):
         self.exc = exc  # a real exception instance (may carry symbolic args)
 
 
+_WRITE_ONLY = {"append", "extend", "add", "update", "insert"}
+_READ_WRITE = {"setdefault", "pop", "remove", "discard", "popitem", "clear"}
+
+
+def _read_and_written_containers(body):
+    """names used in `body` both as the target of a mutation (x[k] = v, x.append(v), x.add(v), ...) and in any other way (k in x, x[k], len(x), ...)"""
+    written, read = set(), set()
+    skip = set()
+    for stmt in body:
+        for node in ast.walk(stmt):
+            if isinstance(node, ast.Subscript) and isinstance(node.ctx, (ast.Store, ast.Del)) and isinstance(node.value, ast.Name):
+                written.add(node.value.id)
+                skip.add(id(node.value))
+            elif isinstance(node, ast.Call) and isinstance(node.func, ast.Attribute) and isinstance(node.func.value, ast.Name):
+                if node.func.attr in _WRITE_ONLY:
+                    written.add(node.func.value.id)
+                    skip.add(id(node.func.value))
+                elif node.func.attr in _READ_WRITE:
+                    written.add(node.func.value.id)
+    for stmt in body:
+        for node in ast.walk(stmt):
+            if isinstance(node, ast.Name) and isinstance(node.ctx, ast.Load) and id(node) not in skip:
+                read.add(node.id)
+    return written & read
+
+
 def _surely_unequal(a, b):
     """a == b is certainly False, decided without the solver (identity of stub objects without __eq__, different concrete parts)"""
     if a is b:
@@ -966,6 +992,11 @@ class Interp:
                 env.locals[nm] = self.path.fresh("carried_" + nm, "name")
             else:
                 env.locals[nm] = Poison(nm)
+        # a local container the body both reads and writes (a cache, a running set) carries state from one iteration to the next: the
+        # iterations are not independent, whatever it holds now (write-only use - an output list that is appended to - is independent)
+        for nm in _read_and_written_containers(s.body):
+            if nm in env.locals and isinstance(env.locals[nm], (dict, set, list)) and not isinstance(env.locals[nm], GenericIter):
+                env.locals[nm] = Poison(nm)
 
     def iterate(self, v):
         if isinstance(v, (SymSeq, SymMap, SV)):
@@ -996,9 +1027,10 @@ class Interp:
         try:
             return env.lookup(e.id)
         except LoopCarried as lc:
-            self.path.oblige("independent_iteration:no_loop_carried_local[%s]" % lc, False,
-                             where="line %d" % getattr(e, "lineno", 0), kind="inv")
-            raise PathEnd("loop-carried read")
+            # the independent-iteration rule does not apply to this loop as it now is: that is a proof that cannot be made, not a refutation -
+            # undecided (the fixed-size companion cases and the sampling fallback decide whether the code is wrong)
+            raise Unsupported("the iterations of the loop are not independent: local '%s' is carried from one iteration to the next (line %d); "
+                              "the independent-iteration rule does not apply" % (lc, getattr(e, "lineno", 0)))
 
     def e_Tuple(self, e, env):
         return tuple(self._elts(e.elts, env))
